@@ -239,7 +239,7 @@ func TestSignal(t *testing.T) {
 		}
 		return
 	}
-	maxN := r.Pick(6, 8)
+	maxN := r.Pick(6, 9)
 	var befores [][]int
 	for l := 0; l <= 2; l++ {
 		for i := 0; i < gen.PowInt(3, l); i++ {
@@ -250,6 +250,7 @@ func TestSignal(t *testing.T) {
 	}
 	befores = append(befores, []int{0, 1, 2}, []int{2, 2, 2})
 	var total, nontriv int64
+	var cases []sigCase
 	for n := 0; n <= maxN; n++ {
 		for v := 0; v < gen.PowInt(nOutcomes, n); v++ {
 			out := make([]int, n)
@@ -262,24 +263,25 @@ func TestSignal(t *testing.T) {
 				step = scripts
 			}
 			for s := v % step; s < scripts; s += step {
-				c := sigCase{Outcomes: out, Before: befores[s%len(befores)], Shut: s / len(befores), Batch: (s + v) % 4}
-				w, k := runSignal(c)
-				r.Eval(int64(k))
+				cases = append(cases, sigCase{Outcomes: out, Before: befores[s%len(befores)], Shut: s / len(befores), Batch: (s + v) % 4})
 				total++
 				if n >= 2 {
 					nontriv++
 				}
-				if w != "" {
-					r.Violation(fmt.Sprintf("signal:%v", c), fmt.Sprintf("SignalHandler with services (registered with Add batching mode %d) whose Shutdown outcomes are %v, after signals %v then %v: %s", c.Batch, names(c.Outcomes), c.Before, shutdowns[c.Shut], w), c)
-					if r.TooMany() {
-						r.Finish()
-						t.Fail()
-						return
-					}
-				}
 			}
 		}
 	}
+	mon.ParallelEach(len(cases), func(_, i int) {
+		if r.TooMany() {
+			return
+		}
+		c := cases[i]
+		w, k := runSignal(c)
+		r.Eval(int64(k))
+		if w != "" {
+			r.Violation(fmt.Sprintf("signal:%v", c), fmt.Sprintf("SignalHandler with services (registered with Add batching mode %d) whose Shutdown outcomes are %v, after signals %v then %v: %s", c.Batch, names(c.Outcomes), c.Before, shutdowns[c.Shut], w), c)
+		}
+	})
 	r.NontrivialN(nontriv)
 	r.Count("scenarios", total)
 	r.Exhaustive(fmt.Sprintf("0..%d services x all %d^n Shutdown outcome vectors over %v; for n<=4 x all %d scripts of 0..3 non-shutdown signals then SIGINT/SIGQUIT/SIGTERM, for n>=5 one rotating script per vector", maxN, nOutcomes, outcomeNames, len(befores)*3))
@@ -669,8 +671,8 @@ func TestRefresh(t *testing.T) {
 		}
 		return
 	}
-	maxTicks := r.Pick(10, 16)
-	var total int64
+	maxTicks := r.Pick(11, 19)
+	var cases []refCase
 	for k := 0; k <= maxTicks; k++ {
 		for v := 0; v < 1<<k; v++ {
 			ticks := make([]bool, k)
@@ -687,22 +689,24 @@ func TestRefresh(t *testing.T) {
 						if k > 0 && (v+k)%3 == 0 {
 							c.TickInFinal, c.ShutdownInRefresh = false, true
 						}
-						w, n := runRefresh(c)
-						r.Eval(int64(n))
-						total++
-						if w != "" {
-							r.Violation(fmt.Sprintf("refresh:%v", c), fmt.Sprintf("RefreshWorker with tick outcomes (true=error) %v, RefreshOnShutdown=%v, final refresh fails=%v, optional fields nil=%v, tick during the final refresh=%v, Shutdown during a refresh=%v, schedule returns 0=%v: %s", c.Ticks, c.OnShutdown, c.FinalFails, c.NilOpt, c.TickInFinal, c.ShutdownInRefresh, c.ZeroDelays, w), c)
-							if r.TooMany() {
-								r.Finish()
-								t.Fail()
-								return
-							}
-						}
+						cases = append(cases, c)
 					}
 				}
 			}
 		}
 	}
+	total := int64(len(cases))
+	mon.ParallelEach(len(cases), func(_, i int) {
+		if r.TooMany() {
+			return
+		}
+		c := cases[i]
+		w, n := runRefresh(c)
+		r.Eval(int64(n))
+		if w != "" {
+			r.Violation(fmt.Sprintf("refresh:%v", c), fmt.Sprintf("RefreshWorker with tick outcomes (true=error) %v, RefreshOnShutdown=%v, final refresh fails=%v, optional fields nil=%v, tick during the final refresh=%v, Shutdown during a refresh=%v, schedule returns 0=%v: %s", c.Ticks, c.OnShutdown, c.FinalFails, c.NilOpt, c.TickInFinal, c.ShutdownInRefresh, c.ZeroDelays, w), c)
+		}
+	})
 	r.NontrivialN(total)
 	r.Count("scenarios", total)
 	r.Exhaustive(fmt.Sprintf("every sequence of 0..%d ticks x refresh outcome {nil, error} per tick, then Shutdown x RefreshOnShutdown x final outcome, then a late tick; with instrumented and with nil optional config fields; log checked after every injected event", maxTicks))
